@@ -30,6 +30,10 @@ type c07Case struct {
 	// Split: where the bounds go for the commands that define -b/-e themselves: 0 both global, 1 end after the command,
 	// 2 begin after the command, 3 both after the command
 	Split int `json:"split,omitempty"`
+	// Depth > 0: the book holds a chain nested more deeply than the default limit allows, ending in X, and the limit is
+	// raised to Depth on one level (every command must work under the same limit, wherever it was set)
+	Depth    int    `json:"depth,omitempty"`
+	DepthVia string `json:"depthvia,omitempty"` // "flag" | "env" | "config"
 }
 
 const c07ClockLayout = "2006/01/02 15:04"
@@ -140,7 +144,18 @@ func checkC07(c c07Case, ctx *vCtx) *vFailure {
 			args = append(append(append([]string{}, args[:nw]...), own...), args[nw:]...)
 		}
 		all := append(append([]string{"--no-color"}, glob...), fileArgs(args...)...)
-		r := vRunApp(vInvocation{Args: all})
+		env := map[string]string{}
+		if c.Depth > 0 {
+			switch c.DepthVia {
+			case "env":
+				env["HR_MAXDEPTH"] = fmt.Sprint(c.Depth)
+			case "config":
+				all = append([]string{"--config", vWriteFile("c07.conf", fmt.Sprintf("[Resolver]\nMaxDepth=%d\n", c.Depth))}, all...)
+			default:
+				all = append([]string{"--maxdepth", fmt.Sprint(c.Depth)}, all...)
+			}
+		}
+		r := vRunApp(vInvocation{Args: all, Env: env})
 		ctx.Run(1)
 		if r.Failed {
 			vViolate("C07: %v failed on valid input: %s", args, r)
@@ -201,10 +216,21 @@ func checkC07(c c07Case, ctx *vCtx) *vFailure {
 		ctx.Label("period")
 	}
 
-	// R1: report totals = sum over days of the register's daily totals
-	{
+	// R1: report totals = sum over days of the register's daily totals, in the default presentation and in one other
+	// (old reporter, totals only, left-aligned template: the totals are the same figures)
+	r1Alt := [][]string{{"reg", "--use-old-reg-reporter"}, {"reg", "--use-old-reg-reporter", "--totals-only"}, {"reg", "--totals-only"}, {"reg", "--internal-template-name", "left-aligned"}}[(len(regDays)+len(totals))%4]
+	for variant := 0; variant < 2; variant++ {
+		days := regDays
+		if variant == 1 {
+			out := run(r1Alt...).Stdout
+			if r1Alt[1] == "--internal-template-name" {
+				days = vReadRegisterLA(out)
+			} else {
+				days = vReadRegister(out)
+			}
+		}
 		pos, neg, sum := map[string][]*big.Rat{}, map[string][]*big.Rat{}, map[string][]*big.Rat{}
-		for _, d := range regDays {
+		for _, d := range days {
 			for _, t := range d.Totals {
 				pos[t.Name] = append(pos[t.Name], vNum(t.Pos))
 				neg[t.Name] = append(neg[t.Name], vNum(t.Neg))
@@ -212,14 +238,14 @@ func checkC07(c c07Case, ctx *vCtx) *vFailure {
 			}
 		}
 		if len(totals) != len(sum) {
-			return vFailf("R1: report totals lists %d elements, the register's daily totals mention %d", len(totals), len(sum))
+			return vFailf("R1: report totals lists %d elements, the register's daily totals mention %d (presentation %d of %v)", len(totals), len(sum), variant, r1Alt)
 		}
 		for _, t := range totals {
 			if _, ok := sum[t.Name]; !ok {
 				return vFailf("R1: report totals has element %q that no daily total of reg shows", t.Name)
 			}
 			if !vSumEq(vNum(t.Pos), pos[t.Name], exact, vCent) || !vSumEq(vNum(t.Neg), neg[t.Name], exact, vCent) || !vSumEqMag(vNum(t.Sum), sum[t.Name], exact, vCent, append(append([]*big.Rat{}, pos[t.Name]...), neg[t.Name]...)) {
-				return vFailf("R1: report totals row %v is not the sum of the register's daily totals for %q (pos %v, neg %v, sum %v)", t, t.Name, pos[t.Name], neg[t.Name], sum[t.Name])
+				return vFailf("R1: report totals row %v is not the sum of the register's daily totals for %q (pos %v, neg %v, sum %v; presentation %d of %v)", t, t.Name, pos[t.Name], neg[t.Name], sum[t.Name], variant, r1Alt)
 			}
 		}
 		ctx.Label("R1")
@@ -602,6 +628,21 @@ func genC07(t *rapid.T) c07Case {
 		}
 	}
 	c.Split = rapid.IntRange(0, 3).Draw(t, "split")
+	xBasic := false
+	for _, b := range s.Basics {
+		xBasic = xBasic || b == c.X
+	}
+	if xBasic && rapid.IntRange(0, 4).Draw(t, "deep") == 0 {
+		// a chain of 10..16 recipes that ends in X, and a limit that allows it (set by flag, variable or configuration file);
+		// or a limit below the default with a book that stays below it
+		L := rapid.IntRange(10, 16).Draw(t, "deeplen")
+		chain := c11Chain("deep~", L)
+		chain[L-1].Lines[0].Name = c.X
+		c.S.Book.Recs = append(c.S.Book.Recs, chain...)
+		c.S.Book.NoFinalNL = false
+		c.Depth = L + rapid.IntRange(1, 4).Draw(t, "deepslack")
+		c.DepthVia = []string{"flag", "env", "config", "config"}[rapid.IntRange(0, 3).Draw(t, "deepvia")]
+	}
 	if rapid.IntRange(0, 4).Draw(t, "clock") == 0 {
 		// a date format with a clock component: several records of one calendar day at different times, bounds inside a day
 		minute := func(label string) int {
